@@ -75,7 +75,7 @@ func doneSites(fn *ssa.Function) []doneSite {
 }
 
 func c07DoneIsError(c *Ctx) {
-	for _, fn := range c.Funcs {
+	for _, fn := range c.subjects() {
 		sites := doneSites(fn)
 		for n, s := range sites {
 			key := fmt.Sprintf("%s#done%d", fnKey(fn), n+1)
@@ -133,7 +133,7 @@ func c07DoneIsError(c *Ctx) {
 			if s.pred != nil {
 				st.Trail = append(st.Trail, fmt.Sprintf("%s:%d", fn.Name(), s.pred.Index))
 			}
-			Explore(fn, s.block, s.idx, s.pred, st, h)
+			ExploreInside(s.block, s.idx, s.pred, st, h)
 			c.paths += h.Paths
 			switch {
 			case len(bad) > 0:
@@ -326,7 +326,7 @@ func c07Cli(c *Ctx) {
 	c.verdict(n >= 15 && wrong == 0, "cmd.main:commands", main.Pos(), fmt.Sprintf("%d sub-command constructors receive the root context", n), fmt.Sprintf("only %d sub-command constructors receive the root context (%d wrong)", n, wrong))
 	// 5. commands hand their ctx to run*: in every new*Command closure the run* call's first arg is the ctx parameter
 	m, mwrong := 0, 0
-	for _, fn := range c.Funcs {
+	for _, fn := range c.subjects() {
 		if fn.Pkg != main.Pkg || fn.Parent() == nil {
 			continue
 		}
@@ -445,7 +445,7 @@ func c07TmpRename(c *Ctx) {
 // c07ErrIsError: code that polls ctx.Err() instead of receiving from Done(): on the edge on
 // which ctx.Err() was found non-nil every reachable return must yield a non-nil error.
 func c07ErrIsError(c *Ctx) {
-	for _, fn := range c.Funcs {
+	for _, fn := range c.subjects() {
 		n := 0
 		for _, b := range fn.Blocks {
 			iff := lastIf(b)
@@ -525,7 +525,7 @@ func c07CommandsPropagate(c *Ctx) {
 		return first.String() == "context.Context"
 	}
 	total := 0
-	for _, fn := range c.Funcs {
+	for _, fn := range c.subjects() {
 		if fn.Pkg != c.CmdSSA || fn.Blocks == nil {
 			continue
 		}
@@ -576,7 +576,7 @@ func c07CommandsPropagate(c *Ctx) {
 func c07RetryObservesCtx(c *Ctx) {
 	n := 0
 	seenKey := map[string]bool{}
-	for _, fn := range c.Funcs {
+	for _, fn := range c.subjects() {
 		if fn.Blocks == nil {
 			continue
 		}
